@@ -149,20 +149,28 @@ def _fmt_esc(d: T.Tuple[T.Any, ...]) -> str:
     return f'{pre}{cls}{rep}{suf}'
 
 
-def _const_domain(e: ast.AST) -> T.Optional[T.Tuple[str, T.Set[T.Any]]]:
+def _const_domain(e: ast.AST, fold: T.Optional[T.Callable[[ast.AST], T.Any]] = None) -> T.Optional[T.Tuple[str, T.Set[T.Any]]]:
     """(variable, constants) when the test says `variable is one of these constants`: `x in {a, b}` / `x in (a, b)` / `x == a` / `a == x` /
     `x == a or x == b` (any nesting of or)."""
     if isinstance(e, ast.Compare) and len(e.ops) == 1:
         l, r = e.left, e.comparators[0]
         if isinstance(e.ops[0], ast.In) and isinstance(l, ast.Name) and isinstance(r, (ast.Set, ast.Tuple, ast.List)) and all(isinstance(x, ast.Constant) for x in r.elts):
             return l.id, {x.value for x in r.elts}          # type: ignore[attr-defined]
+        if isinstance(e.ops[0], ast.In) and isinstance(l, ast.Name) and fold is not None and attr_chain(r) is not None:
+            # a named constant set (module / class constant): folded
+            try:
+                v = fold(r)
+            except Undecided:
+                return None
+            if isinstance(v, (set, frozenset, tuple, list, dict)) and all(isinstance(x, (str, int, bool)) for x in v):
+                return l.id, set(v)
         if isinstance(e.ops[0], ast.Eq):
             if isinstance(l, ast.Name) and isinstance(r, ast.Constant):
                 return l.id, {r.value}
             if isinstance(r, ast.Name) and isinstance(l, ast.Constant):
                 return r.id, {l.value}
     if isinstance(e, ast.BoolOp) and isinstance(e.op, ast.Or):
-        parts = [_const_domain(v) for v in e.values]
+        parts = [_const_domain(v, fold) for v in e.values]
         if all(p is not None for p in parts) and len({p[0] for p in parts}) == 1:       # type: ignore[index]
             out: T.Set[T.Any] = set()
             for p in parts:
@@ -210,7 +218,7 @@ def r7(ctx: RuleCtx) -> None:
                 and isinstance(st.value.slice, ast.Slice):
             sets = []
             for ge, val in guards:
-                dom = _const_domain(ge) if val else None
+                dom = _const_domain(ge, lambda x: fold_expr(repo, mod, x)) if val else None
                 if dom is not None:
                     sets.append(dom)
             if len(sets) != 1:
